@@ -385,12 +385,14 @@ Definition split_link (full : bytes) (capf capp : Z) : out (bytes * bytes) :=
   match index_of 62 s with
   | Some (S k) =>
       let file := firstn (S k) s in let path := skipn (S (S k)) s in
-      if fx_link cfg && ((Z.of_nat (S k) >? 1024) || (Z.of_nat (length path) >? 4096)) then Err E_LEN_BIG else
+      if (fx_lfile cfg && (Z.of_nat (S k) >? 1024)) || (fx_lpath cfg && (Z.of_nat (length path) >? 4096)) then Err E_LEN_BIG else
       if (Z.of_nat (S k) + 1 >? capf) || (Z.of_nat (length path) + 1 >? capp) then OOBW 8 else Ok (file, path)
-  | _ => match full with
+  | sep => (* no file part: the payload starts with the separator, or has none; the path is &link_data[1] *)
+         let guard := match sep with None => fx_lnosep cfg | _ => fx_lpath cfg end in
+         match full with
          | [_] | [] => Uninit
          | _ :: t => let path := cstr_or_all t in
-                     if fx_link cfg && (Z.of_nat (length path) >? 4096) then Err E_LEN_BIG else
+                     if guard && (Z.of_nat (length path) >? 4096) then Err E_LEN_BIG else
                      if Z.of_nat (length path) + 1 >? capp then OOBW 8 else Ok ([], path)
          end
   end.
@@ -708,6 +710,14 @@ Definition wit_toklink : bytes :=
 Definition wit_longfile : bytes :=
   wit_one wit_header [76] (mk_node [76] [] [76; 75] 0 0 blank_ptr 1 3004 1 (0, 1130))
     (enc_data_chunk wa (1, 54) (repeat 102 3000 ++ [62; 47; 83; 120])).
+(* 03, output side: a 4500-character path part behind a 10-character file part; a payload of 4901 characters
+   without separator (ADFI_chase_link hands ADF_Get_Link_Path a char[4097] for the path) *)
+Definition wit_longpath : bytes :=
+  wit_one wit_header [76] (mk_node [76] [] [76; 75] 0 0 blank_ptr 1 4511 1 (0, 1130))
+    (enc_data_chunk wa (1, 1561) (repeat 102 10 ++ [62] ++ repeat 112 4500)).
+Definition wit_nosep : bytes :=
+  wit_one wit_header [76] (mk_node [76] [] [76; 75] 0 0 blank_ptr 1 4901 1 (0, 1130))
+    (enc_data_chunk wa (1, 1951) (repeat 102 900 ++ [70] ++ repeat 112 4000)).
 (* 05, other letter: format byte 0xFF (a negative char) *)
 Definition wit_fmtneg : bytes := firstn 100 wit_valid ++ [255] ++ skipn 101 wit_valid.
 (* 07: array length that does not fit an int *)
